@@ -116,7 +116,39 @@ fn list_matches_mask(list: &[ChannelId], b: &[u8], base: usize) -> bool {
     ok && j == list.len()
 }
 
-pub fn pwb_iff_body(b: &[u8]) {
+fn check_waveform(p: &PwbV2Packet, b: &[u8], q: usize, rs: usize) {
+    let len = b.len();
+    let c = readout_to_channel(q as u16 + 1).unwrap();
+    let w = p.waveform_at(c);
+    if bit(b, 24, q) {
+        // position of q among the set bits
+        let mut j = 0usize;
+        let mut i = 0;
+        while i < 79 {
+            if i < q && bit(b, 24, i) {
+                j += 1;
+            }
+            i += 1;
+        }
+        let bpc = 4 + 2 * rs + if rs % 2 == 1 { 2 } else { 0 };
+        let o = 52 + j * bpc + 4;
+        check!(w.is_some(), "C05:waveform:present");
+        if let Some(w) = w {
+            check!(w.len() == rs, "C05:waveform:length");
+            let mut k = 0;
+            let mut same = true;
+            while k < rs && k < w.len() && o + 2 * k + 1 < len {
+                same &= w[k] == le16(b, o + 2 * k) as i16;
+                k += 1;
+            }
+            check!(same, "C05:waveform:samples");
+        }
+    } else {
+        check!(w.is_none(), "C05:waveform:absent");
+    }
+}
+
+pub fn pwb_iff_body(b: &[u8], qs: &[usize]) {
     let len = b.len();
     let r = PwbV2Packet::try_from(b);
     let want = spec(b);
@@ -165,36 +197,20 @@ pub fn pwb_iff_body(b: &[u8]) {
             p.event_descriptor_write_depth() == b[50] && p.event_descriptor_read_depth() == b[51],
             "C05:acc:event_descriptor_depths"
         );
-        // waveforms: for an arbitrary readout index q
-        let q = sym::u8() as usize;
-        sym::assume(q < 79);
-        let c = readout_to_channel(q as u16 + 1).unwrap();
-        let w = p.waveform_at(c);
-        if bit(b, 24, q) {
-            // position of q among the set bits
-            let mut j = 0usize;
+        // waveforms: for an arbitrary readout index q (one symbolic q), or for
+        // the listed concrete ones (two-channel instances: a lookup at a
+        // symbolic position in the heap-backed sample vector is what the
+        // solver cannot digest)
+        if qs.is_empty() {
+            let q = sym::u8() as usize;
+            sym::assume(q < 79);
+            check_waveform(p, b, q, rs);
+        } else {
             let mut i = 0;
-            while i < 79 {
-                if i < q && bit(b, 24, i) {
-                    j += 1;
-                }
+            while i < qs.len() {
+                check_waveform(p, b, qs[i], rs);
                 i += 1;
             }
-            let bpc = 4 + 2 * rs + if rs % 2 == 1 { 2 } else { 0 };
-            let o = 52 + j * bpc + 4;
-            check!(w.is_some(), "C05:waveform:present");
-            if let Some(w) = w {
-                check!(w.len() == rs, "C05:waveform:length");
-                let mut k = 0;
-                let mut same = true;
-                while k < rs && k < w.len() && o + 2 * k + 1 < len {
-                    same &= w[k] == le16(b, o + 2 * k) as i16;
-                    k += 1;
-                }
-                check!(same, "C05:waveform:samples");
-            }
-        } else {
-            check!(w.is_none(), "C05:waveform:absent");
         }
         // Re-encoding: fixed bytes. All other bytes are the accessor values
         // compared above, the block headers/padding/end marker fixed by `spec`.
@@ -237,7 +253,13 @@ fn shape<const L: usize>(b: &mut [u8; L], s0: i32, s1: i32, t: i32, rs: Option<u
 pub fn pwb_iff<const L: usize, const S0: i32, const S1: i32, const T: i32, const RS: u16>() {
     let mut b: [u8; L] = sym::bytes::<L>();
     shape(&mut b, S0, S1, T, Some(RS));
-    pwb_iff_body(&b);
+    if S1 >= 0 {
+        // both sent channels and one that is not sent
+        let unsent = if S0 != 40 && S1 != 40 { 40 } else { 41 };
+        pwb_iff_body(&b, &[S0 as usize, S1 as usize, unsent]);
+    } else {
+        pwb_iff_body(&b, &[]);
+    }
 }
 
 /// No channel sent, `requested_samples` and `last_sca_cell` fully symbolic
@@ -245,7 +267,7 @@ pub fn pwb_iff<const L: usize, const S0: i32, const S1: i32, const T: i32, const
 pub fn pwb_iff_nochan<const L: usize, const T: i32>() {
     let mut b: [u8; L] = sym::bytes::<L>();
     shape(&mut b, -1, -1, T, None);
-    pwb_iff_body(&b);
+    pwb_iff_body(&b, &[]);
 }
 
 /// Totality (C01), same shapes.
